@@ -18,7 +18,7 @@ let method_kind (nm : n list) : n =
   | "4563686f" (* Echo *) | "4661696c65644563686f" (* FailedEcho *) -> n_of_int 1
   | "53747265616d" (* Stream *) -> n_of_int 2
   | _ -> N0
-let no_methods (_ : n list) : n = N0
+let no_service (_ : n list) : n = n_of_int 3   (* the channel was given no service *)
 let req_ok (b : n list) : bool = Hashtbl.mem req_tbl (hex_of_bytes b)
 let service (nm : n list) (req : n list) : sres option =
   match hex_of_bytes nm with
@@ -91,7 +91,8 @@ let handle (p : string) : string =
   async := false;
   let toks = split p in
   let two = List.mem "2" toks in
-  let a = new_chan (if two then no_methods else method_kind) in
+  let nosvc = List.mem "N" toks in
+  let a = new_chan (if two || nosvc then no_service else method_kind) in
   let b = new_chan method_kind in
   let jam = ref false in
   let held = ref [] in
@@ -135,6 +136,7 @@ let handle (p : string) : string =
       match tok.[0] with
       | '@' -> tag := rest
       | '2' -> ()
+      | 'N' -> ()   (* one-channel mode: the channel has no service *)
       | 'X' -> ()   (* the script carries a header announcing more than 1 MB: see oversize_accepted *)
       | 'A' -> async := true
       | 'T' ->
